@@ -470,6 +470,21 @@ def fam_stream(rng, n, lossless=False, common=False, simple_ipfix=False, version
             o = op_parse(0, msgs=msgs)
             if ex.dirty:
                 o["nospec"] = True
+            if "v9" in msgs[-1] and rng.random() < 0.2:
+                # RFC 3954 counts RECORDS in the header (>= number of flowsets); the crate reads up to `count` flowsets and stops at the
+                # end of the buffer, so such a packet decodes when it is the LAST of its buffer (theorem C04_rfc_count_partial); the
+                # spec writer's expectation is defined for count = number of flowsets only, hence nospec (correspondence + other oracles)
+                m = msgs[-1]["v9"]["m"]
+                nrec = 0
+                for st_ in m["sets"]:
+                    for kind in ("templates", "optTemplates"):
+                        if kind in st_:
+                            nrec += len(st_[kind]["ts"])
+                    if "data" in st_:
+                        nrec += max(1, len(st_["data"]["recs"]))
+                if nrec >= len(m["sets"]):
+                    m["count"] = rng.choice([nrec, nrec, nrec + 1, 65535])
+                    o["nospec"] = True
             ops.append(o)
         out.append(("stream-wild" if wild else "stream", ops))
     return out
@@ -557,7 +572,8 @@ def fam_smallscope(rng, n, protos=(9, 10), maxlen=3, want=WANT_ALL, exhaustive=F
             ops = [op_new(0)]
             joined = rng.random() < 0.33
             msgs_all = []
-            for L in list(seq) + ["Da", "Do"]:
+            for pos, L in enumerate(list(seq) + ["Da", "Do"]):
+                in_seq = pos < len(seq)
                 msg, eff, need = al[L]
                 if need == "raw" or (need is not None and mem.get("7" if need[0] == "t7" else "x") != need):
                     dirty = True
@@ -565,7 +581,7 @@ def fam_smallscope(rng, n, protos=(9, 10), maxlen=3, want=WANT_ALL, exhaustive=F
                     dirty = True                       # zero-size V9 template: outside the conformance predicate
                 if eff is not None:
                     mem["7" if eff[0] == "t7" else "x"] = eff
-                if joined and L in seq:
+                if joined and in_seq:
                     msgs_all.append(msg)
                     continue
                 if msgs_all:
